@@ -113,6 +113,11 @@ CRITS = {
             "data": ["H"], "mate": False,
             "ctor": lambda d: {"haplomat": d["H"]},
             "crit": lambda d: {"crit": "opv", "H": d["H"]}},
+    "GB": {"module": "GenotypeBuilderSelectionProblem",
+           "classes": {"subset": "GenotypeBuilderSubsetSelectionProblem"},
+           "data": ["H", "nbest"], "mate": False,
+           "ctor": lambda d: {"haplomat": d["H"], "nbestfndr": d["nbest"]},
+           "crit": lambda d: {"crit": "gb", "H": d["H"], "nbest": d["nbest"]}},
     "PAFD": {"module": "PopulationAlleleFrequencyDistanceSelectionProblem",
              "classes": {"subset": "PopulationAlleleFrequencyDistanceSubsetSelectionProblem"},
              "data": ["geno", "ploidy", "mkrwt", "tfreq"], "mate": False,
@@ -148,7 +153,7 @@ def ncand(crit, data):
         return len(data["V"][0][0])
     if crit == "L2":
         return len(data["C3"][0][0])
-    if crit == "OPV":
+    if crit in ("OPV", "GB"):
         return len(data["H"][0])
     if crit in ("PAFD", "PAU", "MOGS"):
         return len(data["geno"])
@@ -166,7 +171,7 @@ def nlatent(crit, data):
         return len(data["C3"])
     if crit == "FAMILY":
         return len(data["D"][0]) + len(set(int(v) for v in data["familyid"]))
-    if crit == "OPV":
+    if crit in ("OPV", "GB"):
         return len(data["H"][0][0][0])
     if crit in ("PAFD", "PAU"):
         return len(data["mkrwt"][0])
@@ -179,7 +184,7 @@ def np_data(crit, data):
     """canonical case data -> numpy arrays as the constructors want them"""
     out = {}
     for k, v in data.items():
-        if k == "ploidy":
+        if k in ("ploidy", "nbest"):
             out[k] = int(v)
         elif k == "familyid":
             out[k] = numpy.array([int(x) for x in v], dtype="int64")
@@ -260,9 +265,12 @@ def gen_data(rng, crit, n=None):
         labels = rng.sample(range(1, 40), nf)
         ids = [rng.choice(labels) for _ in range(n)]
         return {"D": [[_val(rng) for _ in range(t)] for _ in range(n)], "familyid": ids}
-    if crit == "OPV":
+    if crit in ("OPV", "GB"):
         nb = rng.randint(1, 3)
-        return {"H": [[[[_val(rng) for _ in range(t)] for _ in range(nb)] for _ in range(n)] for _ in range(2)]}
+        d = {"H": [[[[_val(rng) for _ in range(t)] for _ in range(nb)] for _ in range(n)] for _ in range(2)]}
+        if crit == "GB":
+            d["nbest"] = rng.randint(1, n)
+        return d
     if crit in ("PAFD", "PAU", "MOGS"):
         m = rng.randint(1, 5)
         geno = [[rng.choice([0, 0, 1, 2, 2]) for _ in range(m)] for _ in range(n)]
@@ -288,6 +296,8 @@ def gen_latent_case(rng, crit=None, n=None):
     data = gen_data(rng, crit, n)
     n = ncand(crit, data)
     k = rng.randint(1, n)
+    if crit == "GB":
+        k = rng.randint(int(data["nbest"]), n)       # nbestfndr founders are taken out of the k selected
     S = rng.sample(range(n), k)
     perm = list(S)
     rng.shuffle(perm)
@@ -311,9 +321,9 @@ TRANS_BUILTIN = ("identity", "sum", "dot", "empty", "decn_sum_eq")
 def gen_trans(rng, nl, role):
     """a transformation descriptor and the length of its output"""
     if role == "obj":
-        t = rng.choice(["identity", "identity", "sum", "dot", "penalty", "affine"])
+        t = rng.choice(["identity", "identity", "identity", "slice", "sum", "dot", "penalty", "affine"])
     else:
-        t = rng.choice(["empty", "sum", "dot", "decn_sum_eq", "penalty", "identity"])
+        t = rng.choice(["empty", "sum", "dot", "decn_sum_eq", "penalty", "identity", "identity", "slice"])
     if t == "identity":
         return {"t": "identity"}, nl
     if t == "sum":
@@ -324,6 +334,8 @@ def gen_trans(rng, nl, role):
         return {"t": "empty"}, 0
     if t == "decn_sum_eq":
         return {"t": "decn_sum_eq", "target": canon.enc(Fraction(rng.randint(0, 8), 2))}, 1
+    if t == "slice":         # user callable returning a *view* of the latent vector: latent[0:1]
+        return {"t": "slice"}, 1
     if t == "penalty":       # user callable with a keyword argument: max(latent - thr, 0)
         return {"t": "penalty", "thr": canon.enc(Fraction(rng.randint(-8, 8), 2))}, nl
     return {"t": "affine", "m": canon.enc(Fraction(rng.randint(1, 5))), "c": canon.enc(Fraction(rng.randint(-3, 3)))}, nl
@@ -339,6 +351,8 @@ def gen_eval_case(rng):
     nsol = rng.randint(1, 3)
     X = []
     k = rng.randint(1, n)
+    if crit == "GB":
+        k = rng.randint(int(data["nbest"]), n)
     for _ in range(nsol):
         if enc == "subset":
             X.append(rng.sample(range(n), k))
@@ -362,9 +376,31 @@ def gen_eval_case(rng):
         tr, ln = gen_trans(rng, nl, role)
         case[role + "_trans"] = tr
         # distinct weights per role, mixed signs, never 0 or 1 so that a swapped weight vector shows
-        case[role + "_wt"] = [canon.enc(Fraction(rng.choice([-3, -2, 2, 3, 5, -5, 7]), rng.choice([1, 2])))
+        case[role + "_wt"] = [canon.enc(rng.choice([Fraction(-1), Fraction(-1, 2), Fraction(-1), Fraction(-1, 2)])
+                                        if rng.random() < 0.35 else
+                                        Fraction(rng.choice([-3, -2, 2, 3, 5, -5, 7]), rng.choice([1, 2])))
                               for _ in range(ln)]
     return case
+
+
+def gen_lookahead_case(rng):
+    """RealLookAheadGeneralizedWeightedGenomicSelectionProblem: founders, one trait, the alphas of each simulated
+    generation as decision vector, and the (scripted) offspring populations the mating protocol will return"""
+    from . import c05_factories as CF
+    p = rng.randint(3, 5)
+    founders = CF.gen_pop(rng, n=rng.randint(3, 5), p=p, t=1, nchr=1)
+    founders["phased"] = True
+    ngen = rng.randint(1, 2)
+    nsimul = rng.randint(1, 2)
+    gens = []
+    for _ in range(nsimul):
+        row = []
+        for _ in range(ngen):
+            q = CF.gen_pop(rng, n=rng.randint(3, 4), p=p, t=1, nchr=1)
+            row.append(q["geno"])
+        gens.append(row)
+    return {"kind": "lookahead", "founders": founders, "gens": gens, "nparent": rng.randint(1, 3),
+            "x": [canon.enc(rng.choice([F(0), F(1, 2), F(1), F(1, 2)])) for _ in range(ngen)]}
 
 
 def make_trans(desc, log):
@@ -385,6 +421,9 @@ def make_trans(desc, log):
     elif t == "decn_sum_eq":
         fn = T.trans_decnvec_sum_eq
         kwargs = {"decnvec_sum": _f(desc["target"])}
+    elif t == "slice":
+        def fn(decnvec, latentvec, **kw):
+            return latentvec[0:1]
     elif t == "penalty":
         kwargs = {"thr": _f(desc["thr"])}
 
@@ -421,6 +460,8 @@ def ref_trans(desc, x, latent):
         return []
     if t == "decn_sum_eq":
         return [abs(sum(x, Fraction(0)) - Fraction(desc["target"]))]
+    if t == "slice":
+        return l[0:1]
     if t == "penalty":
         return [max(v - Fraction(desc["thr"]), Fraction(0)) for v in l]
     if t == "affine":
@@ -442,16 +483,17 @@ class C05(Prop):
     N_QUICK = 1500
     N_THOROUGH = 15000
     CORRESPONDENCE = "functional"
-    RULE = ("per case one criterion of the 18-entry table (%d concrete classes), data over small integers / dyadic "
+    RULE = ("per case one criterion of the 19-entry table (%d concrete classes incl. the genotype builder; plus the look-ahead class with a scripted mating protocol and the under-construction mating class, which only raises), data over small integers / dyadic "
             "rationals with distinct entries (upper-triangular asymmetric kinship factors, unsorted family labels, "
             "fixed loci and target frequencies exactly 0, 1/4, 1/2, 3/4, 1); one duplicate-free parent set evaluated "
             "through the subset class (two listings), the integer, binary and real classes (two scalings), plus a "
             "general count vector / real vector and its rescaling; evalfn cases with spy transformations (built-in "
             "and user callables with keyword arguments), distinct weights per role and the batch path evaluate(X); "
-            "factory cases build the problem from population objects.  Non-trivial = at least two candidates, a "
+            "factory cases build the problem from population objects (usefulness criterion with two-way and three-way designs, the latter also through the real three-way variance factory; kinship factors checked against the K of the C13 model).  Non-trivial = at least two candidates, a "
             "proper subset or a non-uniform vector, and a latent vector that is not all zero" % NCLASSES)
     TRUSTED = ["numpy.linalg.norm(.., ord=2) = sqrt of the sum of squares; numpy.power; numpy.linalg.cholesky and "
-               "apply_jitter entered through the contract C^T C = K (re-checked by c05.spec_factor on every factory case)",
+               "apply_jitter entered through the contract C^T C = K, where K is computed by the C13 model "
+               "(Model/Coancestry.lean, op c05.kinship) from the genotype counts; the diagonal may exceed it by the jitter <= 0.5e-6",
                "genetic variance factories (C12), haplotype binning (C18), mating simulation (C01) are stubbed / taken as given "
                "in the factory cases: the factory code around them is what is checked here",
                "pymoo's Problem.evaluate plumbing (only its call of _evaluate is exercised)"]
@@ -483,6 +525,22 @@ class C05(Prop):
         out.append({"kind": "latent", "crit": "MOGS", "data": dict(g, tfreq=[[1], [0], ["1/2"]]), "S": [0, 1, 2],
                     "perm": [1, 0, 2], "a": 1})
         # inside the 1e-10 guard: only compared with the model (see ASSUMPTIONS)
+        # aliasing: identity / view objective transformation, weights -1 and -1/2, constraints that read the latent
+        # vector afterwards (an in-place `obj *= obj_wt` would corrupt what they see)
+        out.append({"kind": "evalfn", "crit": "EBV", "enc": "subset", "data": {"D": D}, "X": [[2, 0], [1, 3]],
+                    "obj_trans": {"t": "identity"}, "obj_wt": [-1, "-1/2"],
+                    "ineqcv_trans": {"t": "identity"}, "ineqcv_wt": [2, 3],
+                    "eqcv_trans": {"t": "sum"}, "eqcv_wt": ["-1/2"]})
+        out.append({"kind": "evalfn", "crit": "GEBV", "enc": "real", "data": {"D": D}, "X": [["1/2", 0, "1/4", "1/4"]],
+                    "obj_trans": {"t": "slice"}, "obj_wt": ["-1/2"],
+                    "ineqcv_trans": {"t": "slice"}, "ineqcv_wt": [5],
+                    "eqcv_trans": {"t": "dot", "w": [1, -2]}, "eqcv_wt": [3]})
+        # interior target frequency at loci where the selected subset is fixed (must be scored unavailable)
+        out.append({"kind": "latent", "crit": "PAU", "S": [0, 1], "perm": [1, 0], "a": 1,
+                    "data": {"geno": [[2, 0, 1], [2, 0, 2], [0, 2, 0]], "ploidy": 2, "mkrwt": [[1], [2], [4]],
+                             "tfreq": [["1/4"], ["3/4"], ["1/2"]]}})
+        # the class that is "still under construction": no objective exists
+        out.append({"kind": "unimplemented", "cls": "MultiObjectiveGenomicSubsetMatingProblem"})
         out.append({"kind": "guard", "crit": "EBV", "data": {"D": D}, "enc": "binary", "x": [0, 0, 0, 0]})
         out.append({"kind": "guard", "crit": "GEBV", "data": {"D": D}, "enc": "real",
                     "x": ["1/100000000000000", 0, 0, 0]})
@@ -497,7 +555,9 @@ class C05(Prop):
         nfac = 0
         for i in range(n):
             r = rng.random()
-            if r < 0.24:
+            if r < 0.02:
+                out.append(gen_lookahead_case(rng))
+            elif r < 0.24:
                 # cycle through the (factory, criterion) pairs as well
                 if nfac < 3 * len(combos):
                     out.append(c05_factories.gen_case(rng, *combos[nfac % len(combos)]))
@@ -530,6 +590,8 @@ class C05(Prop):
         for ci, crit in enumerate(CRITS):
             rng = random.Random(4242 + ci)
             data = gen_data(rng, crit, 4)
+            if crit == "GB":
+                data["nbest"] = 1
             for k in range(1, 5):
                 for S in itertools.combinations(range(4), k):
                     out.append({"kind": "latent", "crit": crit, "data": data, "S": list(S), "perm": list(S)[::-1],
@@ -578,10 +640,72 @@ class C05(Prop):
             return {"latent": canon.enc(numpy.asarray(p.latentfn(decision(case["enc"], case["x"])), dtype=float))}
         if kind == "evalfn":
             return self._run_evalfn(case)
+        if kind == "unimplemented":
+            return self._run_unimplemented(case)
+        if kind == "lookahead":
+            return self._run_lookahead(case)
         if kind == "factory":
             from . import c05_factories
             return c05_factories.run(case)
         raise ValueError(kind)
+
+    def _run_unimplemented(self, case):
+        """MultiObjectiveGenomicSubsetMatingProblem: `latentfn` raises unconditionally ("STILL UNDER CONSTRUCTION",
+        `raise Exception('implement extraction of parents from xmap')`) and `from_object` cannot supply the
+        mandatory `decn_space_xmap` — the class has no objective to compare with a definition."""
+        mod = _mod("MultiObjectiveGenomicMatingProblem")
+        cls = getattr(mod, case["cls"])
+        p = cls(geno=numpy.array([[2, 0], [1, 1], [0, 2]], dtype="int8"), ploidy=2, mkrwt=numpy.array([[1.0], [2.0]]),
+                tfreq=numpy.array([[0.5], [1.0]]), decn_space_xmap=numpy.array([[0, 1], [0, 2], [1, 2]]),
+                ndecn=2, decn_space=numpy.arange(3), decn_space_lower=None, decn_space_upper=None, nobj=2)
+        out = {}
+        try:
+            p.latentfn(numpy.array([0, 1]))
+            out["latentfn"] = "returned"
+        except Exception as e:      # noqa: BLE001 - the documented behaviour is a bare Exception
+            out["latentfn"] = f"{type(e).__name__}: {e}"
+        return out
+
+    def _run_lookahead(self, case):
+        from . import c05_factories as CF
+        compat.import_pybrops()
+        from pybrops.breed.prot.mate.MatingProtocol import MatingProtocol
+        mod = _mod("RealLookAheadGeneralizedWeightedGenomicSelectionProblem")
+        fp = case["founders"]
+        g0 = CF.make_pgmat(fp, True)
+        gm = CF.make_gpmod(fp)
+        steps = []
+        ngen = len(case["x"])
+
+        class Stub(MatingProtocol):
+            nparent = 2
+
+            def __init__(self):
+                self.i = 0
+
+            def mate(self, pgmat, xconfig, nmating, nprogeny, miscout, **kw):
+                sim, gen = divmod(self.i, ngen)
+                self.i += 1
+                ff = gm.fafreq(pgmat)
+                steps.append({"Z": canon.enc(numpy.asarray(pgmat.mat_asformat("{0,1,2}")).astype(int)),
+                              "fafreq": canon.enc(numpy.asarray(ff, dtype=float)),
+                              "sel": sorted(int(v) for v in numpy.asarray(xconfig).ravel()),
+                              "nmating": int(nmating), "nprogeny": int(nprogeny)})
+                gg = case["gens"][sim][gen]
+                q = dict(fp, geno=gg, taxa_grp=[1] * len(gg[0]))
+                return CF.make_pgmat(q, True)
+        n0 = len(fp["geno"][0])
+        p = mod.RealLookAheadGeneralizedWeightedGenomicSelectionProblem(
+            fndr_pgmat=g0, fndr_algmod=gm, mtprot=Stub(), nparent=case["nparent"], ncross=1, nprogeny=3,
+            nsimul=len(case["gens"]), ndecn=ngen, decn_space=numpy.array([[0.0] * ngen, [1.0] * ngen]),
+            decn_space_lower=0.0, decn_space_upper=1.0, nobj=2)
+        state = numpy.random.get_state()
+        numpy.random.seed(777)                      # the code shuffles the selected indices with the global stream
+        try:
+            lat = p.latentfn(numpy.array([_f(v) for v in case["x"]]))
+        finally:
+            numpy.random.set_state(state)
+        return {"latent": canon.enc(numpy.asarray(lat, dtype=float)), "steps": steps, "n0": n0}
 
     def _run_evalfn(self, case):
         crit, enc, data = case["crit"], case["enc"], case["data"]
@@ -641,6 +765,22 @@ class C05(Prop):
         if kind == "guard":
             crit = CRITS[case["crit"]]["crit"](case["data"])
             return [dict(crit, op="c05.latent", x=case["x"])]
+        if kind == "unimplemented":
+            return []
+        if kind == "lookahead":
+            from . import c05_factories as CF
+            u = case["founders"]["u"]
+            ngen = len(case["x"])
+            reqs = []
+            for i, st in enumerate(obs["steps"]):
+                alpha = case["x"][i % ngen]
+                ff = numpy.array([[_f(v) for v in r] for r in st["fafreq"]])
+                ff[ff <= 0] = 1.0
+                reqs.append({"op": "c05.la_step", "Z": st["Z"], "u": u, "pw": canon.enc(numpy.power(ff, -_f(alpha))),
+                             "nparent": case["nparent"]})
+            finals = [[[a + b for a, b in zip(r0, r1)] for r0, r1 in zip(g[-1][0], g[-1][1])] for g in case["gens"]]
+            reqs.append({"op": "c05.la_latent", "ploidy": 2, "u": u, "finals": finals})
+            return reqs
         if kind == "evalfn":
             reqs = []
             if all(case[r + "_trans"]["t"] in TRANS_BUILTIN for r in ("obj", "ineqcv", "eqcv")):
@@ -670,10 +810,64 @@ class C05(Prop):
                     "detail": f"guard[{case['crit']}/{case['enc']}] model={a['ok']} impl={obs['latent']}"}
         if kind == "evalfn":
             return self._judge_evalfn(case, obs, answers)
+        if kind == "lookahead":
+            return self._judge_lookahead(case, obs, answers)
+        if kind == "unimplemented":
+            ok = obs["latentfn"].startswith("Exception: implement extraction of parents")
+            return {"corr": ok, "spec": True, "nontrivial": False,
+                    "detail": f"{case['cls']}.latentfn -> {obs['latentfn']} (no objective implemented; the model has no "
+                              f"criterion for it either)"}
         if kind == "factory":
             from . import c05_factories
             return c05_factories.judge(case, obs, answers)
         raise ValueError(kind)
+
+    def _judge_lookahead(self, case, obs, answers):
+        bad_corr, bad_spec = [], []
+        for a in answers:
+            if "err" in a:
+                raise RuntimeError("driver error: " + a["err"])
+        ngen = len(case["x"])
+        if len(obs["steps"]) != ngen * len(case["gens"]):
+            bad_spec.append(f"{len(obs['steps'])} matings for {len(case['gens'])} simulations x {ngen} generations")
+        for st, a in zip(obs["steps"], answers[:-1]):
+            sc = [Fraction(v) for v in a["ok"]["scores"]]
+            sel = st["sel"]
+            k = min(case["nparent"], len(sc))
+            # Spec: the selected set is a top-k set of the weighted breeding values (ties may go either way)
+            tol = Fraction(1, 10 ** 9) * max([abs(v) for v in sc] + [Fraction(1)])     # float ties (irrational weights)
+            if len(set(sel)) != k or any(i < 0 or i >= len(sc) for i in sel) or \
+                    (sel and min(sc[i] for i in sel) + tol <
+                     max([sc[i] for i in range(len(sc)) if i not in sel], default=min(sc))):
+                bad_spec.append(f"selected {sel} is not a top-{k} set of the weighted breeding values {a['ok']['scores']}")
+            srt = sorted(sc)
+            distinct = all(b - a > tol for a, b in zip(srt, srt[1:]))
+            if distinct and sorted(a["ok"]["sel"]) != sel:
+                bad_corr.append(f"selection model={sorted(a['ok']['sel'])} impl={sel}")
+            if st["nmating"] != 1 or st["nprogeny"] != 3:
+                bad_spec.append(f"mate() called with ncross={st['nmating']} nprogeny={st['nprogeny']}")
+        m = answers[-1]["ok"]
+        if not _close_vec(m, obs["latent"]):
+            bad_corr.append(f"latent model={m} impl={obs['latent']}")
+        # definition, exact: minus the mean (over simulations) genotypic value of the last generation and
+        # minus the mean upper selection limit term
+        u = [Fraction(r[0]) for r in case["founders"]["u"]]
+        gains, usls = [], []
+        for g in case["gens"]:
+            Z = [[a + b for a, b in zip(r0, r1)] for r0, r1 in zip(g[-1][0], g[-1][1])]
+            n = len(Z)
+            gains.append(sum(sum(Fraction(z) * um for z, um in zip(row, u)) for row in Z) / n)
+            tot = Fraction(0)
+            for mi, um in enumerate(u):
+                pf = Fraction(sum(row[mi] for row in Z), 2 * n)
+                ok = (pf > 0) if um > 0 else (pf >= 1)
+                tot += 2 * um * (1 if ok else 0)
+            usls.append(tot)
+        want = [canon.enc(-sum(gains) / len(gains)), canon.enc(-sum(usls) / len(usls))]
+        if not _close_vec(want, obs["latent"]):
+            bad_spec.append(f"latent {obs['latent']} is not [-mean gain, -mean selection-limit term] = {want}")
+        return {"corr": not bad_corr, "spec": not bad_spec, "nontrivial": True,
+                "detail": "lookahead " + ("; ".join(bad_spec + bad_corr)[:1200] if (bad_spec or bad_corr) else "ok")}
 
     def _judge_latent(self, case, obs, answers):
         evs = self._latent_evals(case)
